@@ -138,7 +138,7 @@ mod icu_locid_stub {
 // C20
 // ---------------------------------------------------------------------------------------------
 
-const FAMILIES: [&str; 8] = ["plural", "plural_plain", "number", "currency", "date", "time", "datetime", "list"];
+const FAMILIES: [&str; 9] = ["plural", "plural_plain", "plural_ordinal", "number", "currency", "date", "time", "datetime", "list"];
 const PLACEMENTS: [&str; 9] = ["none", "default-top", "nondefault-only", "subkey-depth2", "range-branch", "plural-form", "fk-target", "second-namespace", "surplus-only"];
 
 fn user_value(family: &str, tag: &str) -> Vec<(String, Val)> {
@@ -147,6 +147,8 @@ fn user_value(family: &str, tag: &str) -> Vec<(String, Val)> {
         "plural" => vec![("K_one".into(), s(vec![text(&format!("[{tag}.one]")), var("count")])), ("K_other".into(), s(vec![text(&format!("[{tag}.other]")), var("count")]))],
         // a plural whose forms hold no variable at all
         "plural_plain" => vec![("K_one".into(), st(&format!("[{tag}.one]"))), ("K_other".into(), st(&format!("[{tag}.other]")))],
+        // ordinal forms only: the generated code asks for the ordinal rules, which are a data key of their own
+        "plural_ordinal" => vec![("K_ordinal_one".into(), s(vec![var("count"), text(&format!("[{tag}.st]"))])), ("K_ordinal_other".into(), s(vec![var("count"), text(&format!("[{tag}.th]"))]))],
         "number" => vec![("K".into(), s(vec![text(&format!("[{tag}]")), var_fmt("v", " number")]))],
         "currency" => vec![("K".into(), s(vec![text(&format!("[{tag}]")), var_fmt("v", " currency(width: narrow; currency_code: EUR)")]))],
         "date" => vec![("K".into(), s(vec![text(&format!("[{tag}]")), var_fmt("v", " date(date_length: long)")]))],
@@ -285,8 +287,9 @@ fn used_families(m: &Model) -> BTreeSet<&'static str> {
                         walk(v, out);
                     }
                 }
-                R::Plural { forms, .. } => {
+                R::Plural { forms, ordinal, .. } => {
                     out.insert("plural");
+                    out.insert(if *ordinal { "plural:ordinal" } else { "plural:cardinal" });
                     for v in forms.values() {
                         walk(v, out);
                     }
@@ -310,15 +313,21 @@ fn used_families(m: &Model) -> BTreeSet<&'static str> {
     out
 }
 
-/// characteristic data key of each family
-fn expected_characteristic(used: &BTreeSet<&str>) -> BTreeMap<&'static str, bool> {
+/// characteristic data key of each family: Some(true) must be requested, Some(false) must not, None either way
+fn expected_characteristic(used: &BTreeSet<&str>) -> BTreeMap<&'static str, Option<bool>> {
     let mut m = BTreeMap::new();
-    m.insert("plurals/cardinal@1", used.contains("plural"));
-    m.insert("list/and@1", used.contains("list"));
-    m.insert("datetime/timesymbols@1", used.contains("datetime"));
-    m.insert("currency/essentials@1", used.contains("currency"));
+    let iff = |b: bool| Some(b);
+    // "plural data iff some key is a plural", and "never lacks data the generated code asks for": the rules of
+    // the kind of plural in use are required, no plural at all forbids both, a plural of the other kind leaves it open
+    let plural = used.contains("plural");
+    m.insert("plurals/cardinal@1", if used.contains("plural:cardinal") { Some(true) } else if plural { None } else { Some(false) });
+    // (date / time formatting brings the ordinal rules with it)
+    m.insert("plurals/ordinal@1", if used.contains("plural:ordinal") { Some(true) } else if plural || used.contains("datetime") { None } else { Some(false) });
+    m.insert("list/and@1", iff(used.contains("list")));
+    m.insert("datetime/timesymbols@1", iff(used.contains("datetime")));
+    m.insert("currency/essentials@1", iff(used.contains("currency")));
     // number data is also part of what date/time formatting needs
-    m.insert("decimal/symbols@1", used.contains("number") || used.contains("datetime"));
+    m.insert("decimal/symbols@1", iff(used.contains("number") || used.contains("datetime")));
     m
 }
 
@@ -475,6 +484,7 @@ fn c20(tier: Tier) -> i32 {
             Out::Ok(infos) => {
                 for (key, want) in expected_characteristic(&used) {
                     let got = infos.icu_keys.contains(key);
+                    let Some(want) = want else { continue };
                     if got != want {
                         rep.violation(
                             format!("C20: data key {key} {} but the translations {} that family :: {}", if got { "requested" } else { "NOT requested" }, if want { "use" } else { "do not use" }, desc()),
@@ -522,7 +532,7 @@ fn c20(tier: Tier) -> i32 {
     rep.sample(json!({"uses": [["currency", "fk-target"]], "namespaced": true}));
     rep.sample(json!({"uses": [["plural", "surplus-only"], ["list", "range-branch"]], "expect": "list data only"}));
     let mut cov = serde_json::Map::new();
-    cov.insert("rule".into(), json!(format!("families {FAMILIES:?} x placements {PLACEMENTS:?} (none; default locale top level; non-default locale only; subkey depth 2 with the other locale null; inside a range branch; inside a plural form; only as the target of a foreign key from another key/namespace; second namespace only; only in a surplus key the default locale lacks = unreachable): every single placement x namespaced or not x 4 locale sets (default first / last / unlisted, script+region names), and pairs of (family, placement) (quick: a quarter, thorough: all); plus ONE variable of one key carrying formatters of several families: every permutation of every subset of <= 3 (thorough 4) of the 6 formatter families x 4 spreads over the locales (all in the default's string; first in the default, rest in the other locale; all in the other locale with the variable plain in the default; inside a subkey with the last only in the other locale) x namespaced or not; plus every way of spreading plural / number / currency / date / list over three namespaces a < b < c or leaving them out (4^5 projects; quick: at most one left out); oracle: characteristic data key of a family (plurals/cardinal@1, list/and@1, datetime/timesymbols@1, currency/essentials@1, decimal/symbols@1 for number-or-datetime) requested iff a reachable key uses the family in some locale (model: union over locales of the resolved trees of the default locale's keys); the driver build_datagen_driver() returns holds exactly the derived keys and the configured language identifiers, build_datagen_driver_with_options([o]) for each of the 5 options holds exactly the derived keys plus the option's own; get_locales / get_locales_langids == configured set, get_namespaces == configured list, files_paths complete; distinct_nontrivial = distinct used-family sets")));
+    cov.insert("rule".into(), json!(format!("families {FAMILIES:?} x placements {PLACEMENTS:?} (none; default locale top level; non-default locale only; subkey depth 2 with the other locale null; inside a range branch; inside a plural form; only as the target of a foreign key from another key/namespace; second namespace only; only in a surplus key the default locale lacks = unreachable): every single placement x namespaced or not x 4 locale sets (default first / last / unlisted, script+region names), and pairs of (family, placement) (quick: a quarter, thorough: all); plus ONE variable of one key carrying formatters of several families: every permutation of every subset of <= 3 (thorough 4) of the 6 formatter families x 4 spreads over the locales (all in the default's string; first in the default, rest in the other locale; all in the other locale with the variable plain in the default; inside a subkey with the last only in the other locale) x namespaced or not; plus every way of spreading plural / number / currency / date / list over three namespaces a < b < c or leaving them out (4^5 projects; quick: at most one left out); oracle: characteristic data key of a family (plurals/cardinal@1 for cardinal and plurals/ordinal@1 for ordinal plurals - required by the kind in use, forbidden without any plural -, list/and@1, datetime/timesymbols@1, currency/essentials@1, decimal/symbols@1 for number-or-datetime) requested iff a reachable key uses the family in some locale (model: union over locales of the resolved trees of the default locale's keys); the driver build_datagen_driver() returns holds exactly the derived keys and the configured language identifiers, build_datagen_driver_with_options([o]) for each of the 5 options holds exactly the derived keys plus the option's own; get_locales / get_locales_langids == configured set, get_namespaces == configured list, files_paths complete; distinct_nontrivial = distinct used-family sets")));
     cov.insert("exhaustive".into(), json!(tier == Tier::Thorough));
     cov.insert("used_family_sets".into(), json!(*classes.lock().unwrap()));
     let _ = std::fs::remove_dir_all(&root);
